@@ -12,7 +12,11 @@ use std::sync::Mutex;
 static PROGRESS: AtomicU64 = AtomicU64::new(0);
 static CURRENT: Mutex<String> = Mutex::new(String::new());
 
+static TRACE: std::sync::atomic::AtomicBool = std::sync::atomic::AtomicBool::new(false);
 fn begin(desc: String) {
+    if TRACE.load(Ordering::Relaxed) {
+        eprintln!("CUR {}", desc);
+    }
     *CURRENT.lock().unwrap() = desc;
     PROGRESS.fetch_add(1, Ordering::SeqCst);
 }
@@ -227,7 +231,7 @@ fn random_nf(rng: &mut Rng, budget: usize, depth: usize, free: usize) -> Term {
     // lambda^a. x n1 .. nk
     let a = rng.below(3) as usize;
     let d = depth + a;
-    let k = if budget > 2 { rng.below(3.min(budget as u64 - 1)) as usize } else { 0 };
+    let k = if budget > 2 { rng.below(5.min(budget as u64 - 1)) as usize } else { 0 };
     let hd = if d > 0 && (free == 0 || rng.chance(3, 4)) {
         Var(1 + rng.below(d as u64) as usize)
     } else {
@@ -289,10 +293,30 @@ fn expand(rng: &mut Rng, t: &Term, depth: usize) -> Term {
         }
     }
 }
+/// replace some arguments of the head variable (below the lambda prefix) by diverging terms
+fn poison(rng: &mut Rng, t: &Term) -> Term {
+    match t {
+        Abs(b) => abs(poison(rng, b)),
+        App(p) => {
+            let arg = if rng.chance(1, 2) {
+                match rng.below(3) {
+                    0 => omega(),
+                    1 => app(Var(1), omega()),
+                    _ => abs(omega()),
+                }
+            } else {
+                p.1.clone()
+            };
+            app(poison(rng, &p.0), arg)
+        }
+        Var(_) => t.clone(),
+    }
+}
 fn suite_normalise(out: &mut Out, tier: &str, rng: &mut Rng) {
+    TRACE.store(true, Ordering::Relaxed);
     let n = if tier == "thorough" { 20000 } else { 2500 };
     for _ in 0..n {
-        let b = 2 + rng.below(12) as usize;
+        let b = 2 + rng.below(14) as usize;
         let nf = random_nf(rng, b, 0, 2);
         let mut t = nf.clone();
         for _ in 0..(1 + rng.below(5)) {
@@ -309,6 +333,16 @@ fn suite_normalise(out: &mut Out, tier: &str, rng: &mut Rng) {
             if safe > 0 {
                 reduce_line(out, o, safe, &t);
             }
+        }
+        // a term with a head normal form but (usually) no normal form: diverging arguments of the head variable
+        let hn = poison(rng, &nf);
+        let mut t = hn.clone();
+        for _ in 0..(1 + rng.below(4)) {
+            t = expand(rng, &t, 0);
+        }
+        out.line(format!("planted-head\t{}\t{}", ser(&t), ser(&hn)));
+        for o in [CBN, HSP] {
+            reduce_line(out, o, 0, &t);
         }
     }
 }
